@@ -196,4 +196,59 @@ theorem hash12_eq_trunc12 (sha : Bytes → Bytes) (s : Str) : hash12 sha s = tru
   rw [digitChar_eq_hexChar _ (by have := x.toNat_lt; omega),
       digitChar_eq_hexChar _ (Nat.mod_lt _ (by decide))]
 
+/-! ### the raw strings determine the lists (so "original order follows the bytes" is not vacuous) -/
+
+theorem hexChar_inj : ∀ a, a < 16 → ∀ b, b < 16 → hexChar a = hexChar b → a = b := by decide
+
+theorem hex4_inj (m n : Nat) (hm : m < 65536) (hn : n < 65536) (h : hex4 m = hex4 n) : m = n := by
+  simp only [hex4, List.cons.injEq, and_true] at h
+  obtain ⟨h3, h2, h1, h0⟩ := h
+  have e3 := hexChar_inj _ (Nat.mod_lt _ (by decide)) _ (Nat.mod_lt _ (by decide)) h3
+  have e2 := hexChar_inj _ (Nat.mod_lt _ (by decide)) _ (Nat.mod_lt _ (by decide)) h2
+  have e1 := hexChar_inj _ (Nat.mod_lt _ (by decide)) _ (Nat.mod_lt _ (by decide)) h1
+  have e0 := hexChar_inj _ (Nat.mod_lt _ (by decide)) _ (Nat.mod_lt _ (by decide)) h0
+  omega
+
+theorem length_hex4 (n : Nat) : (hex4 n).length = 4 := rfl
+
+theorem commaTail_inj : ∀ (r r' : List Nat), fits 65536 r → fits 65536 r' →
+    r.flatMap (fun y => ',' :: hex4 y) = r'.flatMap (fun y => ',' :: hex4 y) → r = r' := by
+  intro r
+  induction r with
+  | nil =>
+    intro r' _ _ h
+    cases r' with
+    | nil => rfl
+    | cons y t => simp [hex4] at h
+  | cons x t ih =>
+    intro r' hr hr' h
+    cases r' with
+    | nil => simp [hex4] at h
+    | cons y t' =>
+      simp only [List.flatMap_cons, List.cons_append, List.cons.injEq, true_and] at h
+      have hx : x < 65536 := hr x (by simp)
+      have hy : y < 65536 := hr' y (by simp)
+      obtain ⟨h1, h2⟩ := List.append_inj h (by simp [length_hex4])
+      have := hex4_inj x y hx hy h1
+      subst this
+      rw [ih t' (fun z hz => hr z (by simp [hz])) (fun z hz => hr' z (by simp [hz])) h2]
+
+/-- two lists of 16-bit values with the same comma-separated rendering are the same list, in the same order -/
+theorem commaHex_inj (l l' : List Nat) (hl : fits 65536 l) (hl' : fits 65536 l') (h : commaHex l = commaHex l') :
+    l = l' := by
+  cases l with
+  | nil =>
+    cases l' with
+    | nil => rfl
+    | cons y t => simp [commaHex, hex4] at h
+  | cons x t =>
+    cases l' with
+    | nil => simp [commaHex, hex4] at h
+    | cons y t' =>
+      simp only [commaHex] at h
+      obtain ⟨h1, h2⟩ := List.append_inj h (by simp [length_hex4])
+      have := hex4_inj x y (hl x (by simp)) (hl' y (by simp)) h1
+      subst this
+      rw [commaTail_inj t t' (fun z hz => hl z (by simp [hz])) (fun z hz => hl' z (by simp [hz])) h2]
+
 end Huginn.Lemmas.Ja4Text
